@@ -81,6 +81,39 @@ def gen_cases(rng, tier):
     n = 250 if tier == 'quick' else 8000
     for _ in range(n):
         yield {'docs': [gen_doc(rng) for _ in range(rng.randint(1, 5))]}
+    for _ in range(300 if tier == 'quick' else 100000):
+        ln = 20 if rng.random() < 0.8 else rng.choice([0, 1, 2, 3, 19, 21, 32])
+        yield {'codec': bytes(rng.randrange(256) for _ in range(ln)).hex()}
+
+
+def run_codec(cases, drv):
+    from txtorcon.router import hexIdFromHash, hashFromHexId
+    res = []
+    lines = []
+    impls = []
+    for c in cases:
+        raw = bytes.fromhex(c['codec'])
+        b64 = base64.b64encode(raw).decode().rstrip('=')
+        hx = '$' + raw.hex().upper()
+        im = []
+        for fn, arg in ((hexIdFromHash, b64), (hashFromHexId, hx), (hashFromHexId, hx[1:].lower())):
+            try:
+                im.append(fn(arg))
+            except Exception as e:
+                im.append('exc:' + type(e).__name__)
+        impls.append((im, b64, hx))
+        lines += ['codec h2x ' + hexs(b64), 'codec x2h ' + hexs(hx), 'codec x2h ' + hexs(hx[1:].lower())]
+    outs = drv.run(lines) if drv is not None else None
+    for k, (c, (im, b64, hx)) in enumerate(zip(cases, impls)):
+        raw = bytes.fromhex(c['codec'])
+        model = None
+        if outs is not None:
+            model = [unhext(o.split(' ')[1]) if o.startswith('some') else o for o in outs[3 * k:3 * k + 3]]
+        # python pads/strips: lengths that are not a multiple of 3 bytes lose the '=' handling in the real code
+        exact = len(raw) % 3 == 2
+        spec = [hx, b64, b64] if exact else None
+        res.append(Result(c, im, model if exact else None, spec, in_h=exact, nontrivial=len(raw) == 20, tags=['codec', 'len=%d' % len(raw)]))
+    return res
 
 
 def dump(state, tokens):
@@ -156,6 +189,12 @@ def parse_view(s):
 
 def run_cases(cases, drv, tier):
     common.quiet_twisted()
+    codec = [c for c in cases if 'codec' in c]
+    cases = [c for c in cases if 'codec' not in c]
+    return run_docs(cases, drv, tier) + run_codec(codec, drv)
+
+
+def run_docs(cases, drv, tier):
     impls = [run_impl(c) for c in cases]
     outs, spans = None, []
     if drv is not None:
